@@ -1,5 +1,6 @@
 import Chewing.Proofs.SyllableParse
 import Chewing.Proofs.SyllablePrefix
+import Chewing.Proofs.SyllableDecode
 /-!
 # C13 — Syllable code, components and Bopomofo spelling convert losslessly
 
@@ -7,6 +8,12 @@ Model: `Chewing.Model.Syllable` (bit masks and symbol tables generated from
 `src/zhuyin/{syllable,bopomofo}.rs`).  A symbol is its enum discriminant, a character its code
 point, a syllable its 16-bit code.  `Tup 5 i m r t` are the 22×4×14×5 optional-component tuples
 (0 = absent); `compose` builds the syllable through the order-checking builder, as `syl![…]` does.
+
+Fixed finding F47: `Syllable::try_from(u16)` accepted every non-zero value ("TODO check invalid value"), e.g. `0x6a07`
+(spelling `""`) or `0x8208` / `0x020e` (the spelling of `0x0208`); since the repair it accepts exactly the codes of the
+tuples with `t ≤ 5` (`decode_total_iff`), so that every accepted code converts back from its components and its
+spelling (`accepted_roundtrip`; the tone value 5 of F18 is the one exception, `accepted_roundtrip_full_refuted`), and
+`validCode` is an invariant of the type (`parse_valid`, `update_valid`, `remove_valid`, `pop_valid`).
 
 Known finding F18: the first-tone mark `ˉ` (code point 713) is accepted by the parser and stored
 as tone value 5, which no accessor decodes; `spell_parse` therefore carries `NoTone1`, and
@@ -52,10 +59,8 @@ theorem components_roundtrip {i m r t c : Nat} (h : Tup 5 i m r t) (hc : compose
 
 /-- code → syllable → code -/
 theorem code_roundtrip {c : Nat} (h : Composable c) : tryFromU16 c = some c := by
-  have := (code_nonzero h).1
-  unfold tryFromU16
-  have : (c == 0) = false := by simp; omega
-  simp [this]
+  obtain ⟨i, m, r, t, ht, rfl⟩ := composable_iff.mp h
+  exact (tryFrom_iff (encode_lt (tup5_to6 ht))).mpr ⟨i, m, r, t, tup5_to6 ht, rfl⟩
 
 /-- syllable → spelling → syllable -/
 theorem parse_spell {c : Nat} (h : Composable c) : parse (spell c) = .ok c := by
@@ -126,7 +131,128 @@ theorem startsWith_iff {s p : Nat} (hs : Composable s) (hp : Composable p) (hne 
   rintro ⟨rfl, rfl, rfl, rfl⟩
   exact hne (by decide)
 
+/-! ### every 16-bit code: what `try_from` accepts, and the round trips of every accepted code (F47) -/
+
+/-- a value `Syllable::try_from` accepts (it then is the code of the syllable handed out) -/
+def Accepted (c : Nat) : Prop := tryFromU16 c = some c
+
+instance (c : Nat) : Decidable (Accepted c) := by unfold Accepted; exact inferInstance
+
+/-- `try_from` rejects or hands out the syllable with exactly that code -/
+theorem decode_total (c : Nat) : tryFromU16 c = none ∨ Accepted c := by
+  cases h : tryFromU16 c with
+  | none => exact Or.inl rfl
+  | some s => right; unfold Accepted; rw [h, tryFrom_some h]
+
+/-- **the accepted codes**: exactly the codes of the tuples with `i ≤ 21, m ≤ 3, r ≤ 13, t ≤ 5` (the all-absent tuple
+    being the empty pattern `0x8000`); every other one of the 65536 values — zero, a component index beyond its
+    table, the empty-marker bit next to other bits — is rejected -/
+theorem decode_total_iff {c : Nat} (hc : c < 65536) :
+    Accepted c ↔ ∃ i m r t, Tup 6 i m r t ∧ c = encode i m r t := tryFrom_iff hc
+
+/-- accepted = composable, or carrying the tone value 5 that only the first-tone mark produces (F18) -/
+theorem accepted_iff {c : Nat} (hc : c < 65536) :
+    Accepted c ↔ Composable c ∨ ∃ i m r, Tup 6 i m r 5 ∧ c = encode i m r 5 := by
+  rw [decode_total_iff hc, composable_iff]
+  constructor
+  · rintro ⟨i, m, r, t, ht, rfl⟩
+    by_cases h5 : t = 5
+    · subst h5; exact Or.inr ⟨i, m, r, ht, rfl⟩
+    · exact Or.inl ⟨i, m, r, t, by unfold Tup at ht ⊢; omega, rfl⟩
+  · rintro (⟨i, m, r, t, ht, rfl⟩ | ⟨i, m, r, ht, rfl⟩)
+    · exact ⟨i, m, r, t, tup5_to6 ht, rfl⟩
+    · exact ⟨i, m, r, 5, ht, rfl⟩
+
+/-- an accepted code whose tone field is not 5 is the code of a composable syllable -/
+theorem accepted_composable {c : Nat} (hc : c < 65536) (ha : Accepted c) (hno : c % 8 ≠ 5) : Composable c := by
+  rcases (accepted_iff hc).mp ha with h | ⟨i, m, r, ht, rfl⟩
+  · exact h
+  · exact absurd (encode_fields ht).2.2.2.1 hno
+
+/-- a rejected value is not the code of any composable syllable -/
+theorem rejected_not_composable {c : Nat} (h : tryFromU16 c = none) : ¬ Composable c := by
+  intro hc
+  rw [code_roundtrip hc] at h
+  cases h
+
+/-- the syllable rebuilt from the components the accessors decode, through the order-checking builder -/
+def recompose (c : Nat) : Except BuildErr Nat :=
+  (Builder.new.insertAll ([initial c, medial c, rime c, tone c].filterMap id)).map (·.value)
+
+theorem recompose_composable {c : Nat} (h : Composable c) : recompose c = .ok c := by
+  obtain ⟨i, m, r, t, ht, hc⟩ := h
+  obtain ⟨h0, h1, h2, h3⟩ := components_roundtrip ht hc
+  have e : [initial c, medial c, rime c, tone c].filterMap id = tupleSyms i m r t := by
+    rw [h0, h1, h2, h3, filterMap_id4]
+    unfold tupleComp tupleSyms
+    simp only [ite_toList]
+  unfold recompose
+  rw [e]
+  exact hc
+
+/-- the full-strength statement for EVERY value the API can hand out through `try_from`: the accepted code converts
+    back from its spelling and from its components -/
+def accepted_roundtrip_full : Prop :=
+  ∀ c, c < 65536 → Accepted c → parse (spell c) = .ok c ∧ recompose c = .ok c
+
+/-- … which holds for every accepted code whose tone field is not the value 5 of the first-tone mark — with no other
+    premise: since the repair of F47 no accepted code has a component index outside of its table -/
+theorem accepted_roundtrip {c : Nat} (hc : c < 65536) (ha : Accepted c) (hno : c % 8 ≠ 5) :
+    parse (spell c) = .ok c ∧ recompose c = .ok c :=
+  have h := accepted_composable hc ha hno
+  ⟨parse_spell h, recompose_composable h⟩
+
+/-- … and is false at the tone value 5 (known finding F18): `0x20d` is accepted, spells as `"ㄅㄚ"`, which is `0x208` -/
+theorem accepted_roundtrip_full_refuted : ¬ accepted_roundtrip_full := by
+  intro h
+  have := (h 525 (by omega) (by decide)).1
+  revert this
+  decide
+
+/-- accepted codes with different values have different spellings (tone value 5 aside) -/
+theorem accepted_spelling_unique {c c' : Nat} (hc : c < 65536) (hc' : c' < 65536) (ha : Accepted c) (ha' : Accepted c')
+    (hno : c % 8 ≠ 5) (hno' : c' % 8 ≠ 5) (e : spell c = spell c') : c = c' :=
+  spelling_unique (accepted_composable hc ha hno) (accepted_composable hc' ha' hno') e
+
+/-- `validCode` is an invariant of the type: every value the spelling parser hands out is an accepted code … -/
+theorem parse_valid {s : List Nat} {v : Nat} (hp : parse s = .ok v) : v < 65536 ∧ validCode v = true := by
+  unfold parse at hp
+  obtain ⟨i, m, r, t, ht, rfl⟩ := go_tup6 s absOk_new hp
+  exact ⟨encode_lt ht, validCode_encode ht⟩
+
+/-- … and `update` (every keyboard layout) maps accepted codes to accepted codes and never panics on them -/
+theorem update_valid {c b : Nat} (hc : c < 65536) (hv : validCode c = true) (hb : b < 42) :
+    ∃ v, update c b = some v ∧ v < 65536 ∧ validCode v = true := Chewing.update_valid hc hv hb
+
+/-- … and so do the four removers and `pop` -/
+theorem remove_valid {c : Nat} (k : Nat) (hc : c < 65536) (hv : validCode c = true) :
+    removeKind k c < 65536 ∧ validCode (removeKind k c) = true := removeKind_valid k hc hv
+
+theorem pop_valid {c : Nat} (hc : c < 65536) (hv : validCode c = true) :
+    (pop c).2 < 65536 ∧ validCode (pop c).2 = true := Chewing.pop_valid hc hv
+
+/-- `chewing_phone_to_bopomofo`: a rejected value is answered with -1 and nothing is written; the text written for an
+    accepted one parses back to the value -/
+theorem phone_rejected {c len : Nat} (h : tryFromU16 c = none) : phoneToBopomofo c len = (-1, none) := by
+  unfold phoneToBopomofo; rw [h]
+
+theorem phone_text_parses {c len : Nat} {s : List Nat} (hc : c < 65536) (hno : c % 8 ≠ 5)
+    (h : (phoneToBopomofo c len).2 = some s) : parse s = .ok c := by
+  unfold phoneToBopomofo at h
+  rcases decode_total c with hn | ha
+  · rw [hn] at h; cases h
+  · unfold Accepted at ha
+    rw [ha] at h
+    simp only at h
+    split at h
+    · cases h; exact (accepted_roundtrip hc ha hno).1
+    · cases h
+
 /-! ### non-vacuity: concrete instances of the hypotheses -/
+
+example : Accepted 10268 ∧ 10268 % 8 ≠ 5 := by decide
+example : tryFromU16 27143 = none ∧ tryFromU16 33288 = none ∧ tryFromU16 526 = none ∧ Accepted 32768 := by decide
+example : (phoneToBopomofo 10268 10).2 = some [12568, 12572, 715] := by decide
 
 example : Composable 10268 := composable_iff.mpr ⟨20, 0, 3, 4, by unfold Tup; omega, by decide⟩
 example : parse [12568, 12572, 715] = .ok 10268 ∧ ∀ c ∈ [12568, 12572, 715], c ≠ 713 := by decide
